@@ -428,6 +428,11 @@ def run(ctx):
             else:
                 chk.bad(R5, imp.qualname, norm(n), 'a whole-object read in import_objects is not guarded by the memory budget', where=f'{imp.module.relpath}:{n.lineno}')
 
+    from .common import option_forwarding
+    R6 = chk.rule('C18.R6', 'open_streams is forwarded unchanged by every wrapper (lazily opened inputs stay lazy)', 1)
+    nf = option_forwarding(ctx, chk, R6, ['open_streams'])
+    chk.require(nf >= 1, f'expected >= 1 forwarding site of open_streams, found {nf}')
+
     return chk.finish(
         explanation=('Static resource rules: a leak typestate per function over every descriptor-producing call (open, os.open, sqlite3.connect, tempfile) with hand-over '
                      '(return / yield / owner attribute) and owner-closes checks; Container.close closes and disposes both sessions; a one-open-file typestate on the bulk '
